@@ -8,10 +8,19 @@ import Tranp.Model.Classify
 import Tranp.Generated.GrammarLadder
 import Tranp.Generated.ResolverTable
 import Tranp.Generated.GrammarParents
+import Tranp.Generated.MatchFeatures
 
 namespace Tranp.C02
 open Tranp Tranp.Prec Tranp.Ladder Tranp.Classify
 open Tranp.Generated.GrammarLadder (ladder compOps)
+
+/-! ## the generated constants of the `match_feature` methods -/
+
+/-- the `i`-th string constant of `Class.method` as translate/gen_match_features.py read it off the code (`[]` when absent) -/
+def constAt (key : Str) (i : Nat) : Str :=
+  match Generated.MatchFeatures.consts.find? (fun r => r.1 == key) with
+  | some r => r.2.getD i []
+  | none => []
 
 /-! ## the supported operator vocabulary -/
 
